@@ -246,6 +246,13 @@ func (l *Layout) Fields() []FieldSite {
 	_, hn, _ := ReadUvarint(l.Image[base:])
 	fs = append(fs, FieldSite{"hdr.len", base, "varint", hn})
 	fs = append(fs, FieldSite{"hdr.version", base + int64(l.Payload.HeaderLen) - 1, "u8", 1})
+	// the CBOR byte-string head of the first root (0x58 <len>): a declared length inside the header
+	if len(l.Roots) > 0 && len(l.Roots) < 24 {
+		p := base + int64(hn) + 1 + 6 + 1 + 2
+		if p+1 < int64(len(l.Image)) && l.Image[p] == 0x58 {
+			fs = append(fs, FieldSite{"hdr.root.cborlen", p, "cborbytes", 2})
+		}
+	}
 	for i, s := range l.Payload.Sections {
 		fs = append(fs, FieldSite{fmt.Sprintf("sec%d.len", i), base + s.Off, "varint", s.LenSize})
 		// multihash length byte of the CID (last varint before the digest) for digests < 128 bytes
@@ -356,6 +363,8 @@ func (l *Layout) ApplyMuts(muts []Mut) []byte {
 				enc = []byte{byte(m.Val)}
 			case "varint":
 				enc = PutUvarint(m.Val)
+			case "cborbytes":
+				enc = cborHead(2, m.Val)
 			}
 			img = append(img[:f.Off], append(enc, img[f.Off+int64(f.Len):]...)...)
 		default:
@@ -391,6 +400,15 @@ func GenImageSpec(r *Rng, maxBlocks int) ImageSpec {
 	s.Blocks = []BlkSpec{}
 	for i := 0; i < n; i++ {
 		s.Blocks = append(s.Blocks, Pick(r, alpha))
+	}
+	// a section whose length sits on a varint boundary (multiple of 128, +-1): the shapes length
+	// prefix handling is sensitive to
+	if len(s.Blocks) > 0 && r.Chance(1, 3) {
+		i := r.Intn(len(s.Blocks))
+		if k := s.Blocks[i].Kind; k != "id" && k != "idsha" && k != "shasha" {
+			cl := MakeBlock(BlkSpec{Kind: k, Seed: 1, Size: 1}).Cid.ByteLen()
+			s.Blocks[i].Size = Pick(r, []int{128, 256})*1 - cl + Pick(r, []int{-1, 0, 0, 0, 1})
+		}
 	}
 	nroots := Pick(r, []int{0, 1, 1, 1, 2, 3})
 	s.Roots = []BlkSpec{}
